@@ -41,7 +41,12 @@ def gen_script(rng):
         elif r < 0.65 and sent:
             reply(rng.randrange(len(sent)), nodelib.gen_body(rng))
             steps.append("sync")
-        elif r < 0.7:
+        elif r < 0.73 and sent:
+            # a reply for the same identifier number of another incarnation of the node, or with another serial: not ours
+            steps.append("replystale @%d %s %s" % (rng.randrange(len(sent)), rng.choice(["creation", "serial"]),
+                                                   etf.show(("t", [("a", b"rex"), ("a", b"stale")]))))
+            steps.append("sync")
+        elif r < 0.76:
             steps.append("replyto %s %s" % (etf.show(("p", nodelib.NODE, rng.choice([999, 2**20, 77]), rng.choice([0, 3]), rng.choice([7, 8]), None)),
                                             etf.show(("t", [("a", b"rex"), ("a", b"stray")]))))
             steps.append("sync")
@@ -131,6 +136,9 @@ def run(ctx):
     cases.append(SEP.join(["node 1", "spawn", "rpc S 6d 66 0", "expire", "rpc L 6d 66 0", "reply @0 t 2 a 726578 i 1", "sync", "results", "pending",
                            "reply @1 t 2 a 726578 i 2", "reply @1 t 2 a 726578 i 3", "sync", "results", "pending"]))
     cases.append(SEP.join(["node 1", "spawn", "close", "rpc L 6d 66 0", "rpc S 6d 66 0", "results", "pending"]))
+    # a reply addressed to another incarnation's identifier must not be taken for the outstanding call's
+    cases.append(SEP.join(["node 1", "spawn", "rpc L 6d 66 0", "replystale @0 creation t 2 a 726578 a 7374616c65", "sync", "results", "pending",
+                           "replystale @0 serial t 2 a 726578 a 7374616c65", "sync", "results", "reply @0 t 2 a 726578 i 7", "sync", "results", "pending"]))
 
     def classify(c, impl):
         return ["op:" + s.split()[0] for s in c.split(SEP)[1:]]
